@@ -37,34 +37,33 @@ example : ∃ s, Reach exCfg s ∧ (decide ((s.key 0).fcalls = 1 ∧ s.pc 0 = .e
   reach_of_run exCfg exTrace _ (by decide)
 
 /-- `Do k` returns the value of the one completed invocation of f: when the `do-return k v` step
-happens, f has returned (`fret`) exactly that value, `done` is set and f ran once. -/
+happens, f has returned (`fret`) exactly that value — which is the value the scenario's f produces on
+its FIRST invocation (`none`, Go's nil, for a nil key) —, `done` is set and f ran once. -/
 theorem do_returns_value (c : Cfg) (s s' : State) (h : Reach c s) (t : Nat) (k : Nat) (v : Option Val)
     (hs : step c s t (.doReturn k v) = some s') :
-    ∃ w, v = some w ∧ (s.key k).fret = some w ∧ (s.key k).done = 1 ∧ (s.key k).fcalls = 1 := by
+    v = c.fval k 1 ∧ (s.key k).fret = some v ∧ (s.key k).done = 1 ∧ (s.key k).fcalls = 1 := by
   have inv := inv_reach h
   have st := step_sound hs
   cases st with
   | doReturn hpc =>
     have hd := inv.readPt t k (Or.inl hpc)
-    obtain ⟨h1, h2, h3⟩ := inv.published k hd
-    cases hf : (s.key k).fret with
-    | none => rw [hf] at h3; simp at h3
-    | some w => exact ⟨w, by rw [h2, hf], rfl, hd, h1⟩
+    obtain ⟨h1, h2⟩ := inv.published k hd
+    exact ⟨(valinv_reach h).fretVal k _ h2, h2, hd, h1⟩
 
 example : ∃ s, Reach exCfg s ∧ (decide (s.pc 1 = .dRet 0 ∧ (s.key 0).result = some ⟨0, 1⟩)) = true :=
   reach_of_run exCfg (exTrace.take 22) _ (by decide)
 
 /-- Safe publication: a task that is about to read `e.result` (in `Do` or `Get`) has seen `done = 1`;
-at that moment the result holds the value f returned, and no task is at (or before) the plain write
+at that moment the result holds the value f returned (nil included: `fret = some result`), and no task is at (or before) the plain write
 of `e.result` for that key — the write happened before the atomic store the reader observed. -/
 theorem publication (c : Cfg) (s : State) (h : Reach c s) (t : Nat) (k : Nat)
     (hr : s.pc t = .dRet k ∨ s.pc t = .gRet k) :
-    (s.key k).done = 1 ∧ (s.key k).result = (s.key k).fret ∧ (s.key k).fret.isSome = true ∧
+    (s.key k).done = 1 ∧ (s.key k).fret = some (s.key k).result ∧
     ∀ (t' : Nat) v, s.pc t' ≠ .dWrite k v ∧ s.pc t' ≠ .dInF k v ∧ s.pc t' ≠ .dFEnter k := by
   have inv := inv_reach h
   have hd := inv.readPt t k hr
-  obtain ⟨_, h2, h3⟩ := inv.published k hd
-  refine ⟨hd, h2, h3, ?_⟩
+  obtain ⟨_, h2⟩ := inv.published k hd
+  refine ⟨hd, h2, ?_⟩
   intro t' v
   refine ⟨?_, ?_, ?_⟩
   · intro hp; have := (inv.writePt t' k v hp).2.1; omega
@@ -96,7 +95,7 @@ theorem critical_section_exclusive (c : Cfg) (s : State) (h : Reach c s) (t t' :
   rw [own t' h2] at a
   exact (Option.some.inj a).symm
 
-example : ∃ s, Reach exCfg s ∧ (decide (s.pc 0 = .dInF 0 ⟨0, 1⟩ ∧ s.pc 1 = .dLock 0)) = true :=
+example : ∃ s, Reach exCfg s ∧ (decide (s.pc 0 = .dInF 0 (some ⟨0, 1⟩) ∧ s.pc 1 = .dLock 0)) = true :=
   reach_of_run exCfg (exTrace.take 13) _ (by decide)
 
 /-- `Get` never blocks: in every reachable state a task inside `Get` has an enabled step. -/
@@ -114,7 +113,7 @@ example : ∃ s, Reach exCfg s ∧ (decide ((s.pc 1).inGet = true)) = true :=
 /-- `Get k` returns nil or the value of the one invocation of f (and then `done` is set). -/
 theorem get_nil_or_value (c : Cfg) (s s' : State) (h : Reach c s) (t : Nat) (k : Nat) (v : Option Val)
     (hs : step c s t (.getReturn k v) = some s') :
-    v = none ∨ (∃ w, v = some w ∧ (s.key k).fret = some w ∧ (s.key k).done = 1 ∧ (s.key k).fcalls = 1) := by
+    v = none ∨ (v = c.fval k 1 ∧ (s.key k).fret = some v ∧ (s.key k).done = 1 ∧ (s.key k).fcalls = 1) := by
   have inv := inv_reach h
   have st := step_sound hs
   cases st with
@@ -122,10 +121,8 @@ theorem get_nil_or_value (c : Cfg) (s s' : State) (h : Reach c s) (t : Nat) (k :
   | getVal hpc =>
     right
     have hd := inv.readPt t k (Or.inr hpc)
-    obtain ⟨h1, h2, h3⟩ := inv.published k hd
-    cases hf : (s.key k).fret with
-    | none => rw [hf] at h3; simp at h3
-    | some w => exact ⟨w, by rw [h2, hf], rfl, hd, h1⟩
+    obtain ⟨h1, h2⟩ := inv.published k hd
+    exact ⟨(valinv_reach h).fretVal k _ h2, h2, hd, h1⟩
 
 example : ∃ s, Reach exCfg s ∧ (decide (s.pc 1 = .gRet 0 ∧ (s.key 0).result = some ⟨0, 1⟩)) = true :=
   reach_of_run exCfg (exTrace.take 26) _ (by decide)
@@ -148,5 +145,27 @@ theorem no_return_before_f (c : Cfg) (s : State) (h : Reach c s) (t t' : Nat) (k
 
 example : ∃ s, Reach exCfg s ∧ (decide (s.pc 0 = .dStore 0 ∧ s.pc 1 = .dLock 0)) = true :=
   reach_of_run exCfg (exTrace.take 15) _ (by decide)
+
+/-- Keys whose computation returns nil: f still runs once (`f_once` does not care about the value), every
+`Do k` returns nil and every `Get k` returns nil — the completed computation is recorded by `done`, not by
+a non-nil result. -/
+theorem nil_key_returns_nil (c : Cfg) (s s' : State) (h : Reach c s) (t : Nat) (k : Nat) (v : Option Val)
+    (hn : c.nilKey k = true)
+    (hs : step c s t (.doReturn k v) = some s' ∨ step c s t (.getReturn k v) = some s') :
+    v = none ∧ (s.key k).fcalls ≤ 1 := by
+  refine ⟨?_, fcalls_le_one (inv_reach h) k⟩
+  have hv : c.fval k 1 = none := by simp [Cfg.fval, hn]
+  rcases hs with hs | hs
+  · rw [(do_returns_value c s s' h t k v hs).1, hv]
+  · rcases get_nil_or_value c s s' h t k v hs with h0 | h1
+    · exact h0
+    · rw [h1.1, hv]
+
+example : ∃ s, Reach exNilCfg s ∧ (decide (s.pc 0 = .dRet 0 ∧ (s.key 0).result = none ∧ (s.key 0).fret = some none ∧
+    (s.key 0).done = 1 ∧ (s.key 0).fcalls = 1 ∧ (s.rest 0).isEmpty)) = true :=
+  reach_of_run exNilCfg (exNilTrace.take 16) _ (by decide)
+
+example : ∃ s, Reach exNilCfg s ∧ (decide ((s.key 0).fcalls = 1 ∧ s.pc 0 = .exited ∧ s.pc 1 = .exited)) = true :=
+  reach_of_run exNilCfg exNilTrace _ (by decide)
 
 end GIV.C10
